@@ -261,7 +261,8 @@ def run_history(hist, workdir, tid, trunc):
                 if name == 'title':
                     g.comment = text_of(op['v'])
                 elif name == 'natoms':
-                    g.natoms = op['v']
+                    # a count is a count whatever integer type carries it (len(), a numpy sum, an array element)
+                    g.natoms = op['v'] if tid % 3 == 0 else (np.int64(op['v']) if tid % 3 == 1 else np.int32(op['v']))
                 elif name == 'format':
                     g.position_format = tuple(op['v'])
                 elif name == 'box':
@@ -471,7 +472,7 @@ def random_file_trace(seed, tid, workdir, max_recs, trunc=True):
         if title is not None:
             g.comment = title
         if declared:
-            g.natoms = n
+            g.natoms = n if rng.random() < 0.5 else np.int64(n)
         if preset:
             g.position_format = (w, d)
         if boxm is not None:
